@@ -22,7 +22,9 @@ func (r Arguments) Matches(items ...string) bool {
 		if !StringInSlice(item, r) {
 			return false
 		}
-		found[item] = true
+		// items are matched without regard to case, so they are counted without regard to case too:
+		// "code" and "Code" are one item, not two
+		found[strings.ToLower(item)] = true
 	}
 
 	return len(found) == len(r)
